@@ -2,6 +2,7 @@
 //! 19 given properties. Usage: sdmmc-mc <Cxx> <quick|thorough> | --replay <file> | selftest
 
 mod engine;
+mod medium;
 mod mkfs;
 mod names83;
 mod props;
